@@ -3,6 +3,7 @@ import ast
 
 from mstatic.core import AnalysisError, dotted, norm, own_nodes
 from mstatic.rules import util as U
+from mstatic.rules import shared
 from mstatic.rules import c03
 from mstatic.statedom import OBJ
 
@@ -204,6 +205,10 @@ def run(ctx):
              ctx.loc(sc))
 
     # ---- R4 environment of the root execution ----------------------------------
+    r5 = ctx.rule('R5', 'a sub-workflow counts as finished for its parent '
+                  'exactly while it is in a completed state', 'GD+PAIR')
+    shared.accepted_tracks_completion(ctx, r5)
+
     r4 = ctx.rule('R4', 'expressions are evaluated against the root '
                   'execution\'s environment', 'GD')
     ge = prog.func('mistral.workflow.data_flow.get_workflow_environment_dict')
